@@ -72,7 +72,7 @@ def handleBot : Handler := fun st op args =>
     | some size, some secs =>
       let color := if colour == "w" then Color.white else if colour == "b" then Color.black else Color.none
       let fixed := auxOf rest "v=" != some "pinned"
-      let cfg : Bot.Cfg := { basis := st.basis, color := color, gameStr := "Game#" ++ gameNo, fixed := fixed }
+      let cfg : Bot.Conf := { basis := st.basis, color := color, gameStr := "Game#" ++ gameNo, fixed := fixed }
       let s0 := start cfg size secs
       let noGame := s0.status != .running
       let b : Session := { cfg := cfg, st := if noGame then s0 else settle cfg s0, noGame := noGame }
